@@ -6,7 +6,7 @@
 //! quarantined (never reused before `reset`). `realloc` always moves. Requests are numbered;
 //! a request whose index is in `faults` or whose size exceeds `limit` is refused.
 
-use lean_string::verif_hooks::{self, AllocTable};
+use lean_string::verif_hooks::{self, AccessTable, AllocTable};
 use std::alloc::{GlobalAlloc, Layout, System};
 use std::collections::BTreeSet;
 use std::sync::Mutex;
@@ -60,6 +60,8 @@ pub struct Shadow {
     pub events: Vec<Ev>,
     pub errors: Vec<String>,
     pub total_reqs: u64,
+    /// access notes seen (reads/writes of heap text reported by the crate)
+    pub notes: u64,
 }
 
 unsafe impl Send for Shadow {}
@@ -72,6 +74,7 @@ pub static SHADOW: Mutex<Shadow> = Mutex::new(Shadow {
     events: Vec::new(),
     errors: Vec::new(),
     total_reqs: 0,
+    notes: 0,
 });
 
 fn lock() -> std::sync::MutexGuard<'static, Shadow> {
@@ -82,6 +85,39 @@ fn lock() -> std::sync::MutexGuard<'static, Shadow> {
 }
 
 static TABLE: AllocTable = AllocTable { alloc: sh_alloc, dealloc: sh_dealloc, realloc: sh_realloc };
+static ACCESS: AccessTable = AccessTable { note: sh_note };
+
+thread_local! {
+    /// set while this thread is inside `with` (harness code inspecting the shadow heap may call
+    /// `as_str()` on a handle, which reports an access note: that note is the harness's, not the crate's)
+    static IN_WITH: std::cell::Cell<bool> = const { std::cell::Cell::new(false) };
+}
+
+/// The crate starts to read (`NOTE_READ_TEXT`) or to write (`NOTE_WRITE_TEXT`) the text of a heap
+/// buffer: the buffer must be live, and a write needs the reference count to be exactly 1.
+fn sh_note(kind: u8, ptr: *const u8) {
+    if IN_WITH.with(|f| f.get()) {
+        return;
+    }
+    let mut s = lock();
+    s.notes += 1;
+    match s.locate(ptr as usize) {
+        Some((i, _, false)) => {
+            let what = if kind == verif_hooks::NOTE_WRITE_TEXT { "write to" } else { "read of" };
+            if s.errors.len() < 20 {
+                s.errors.push(format!("{what} the text of block B{i} after its release (use after free)"));
+            }
+        }
+        Some((i, _, true)) if kind == verif_hooks::NOTE_WRITE_TEXT => {
+            // header = { count, capacity } at the start of the allocation
+            let count = unsafe { std::ptr::read_volatile(s.blocks[i].user as *const usize) };
+            if count != 1 && s.errors.len() < 20 {
+                s.errors.push(format!("in-place write access to block B{i} while its reference count is {count} (another handle can read it)"));
+            }
+        }
+        _ => {}
+    }
+}
 
 pub fn install() {
     {
@@ -89,6 +125,7 @@ pub fn install() {
         s.faults = BTreeSet::new();
     }
     verif_hooks::install(Some(&TABLE));
+    verif_hooks::install_access(Some(&ACCESS));
 }
 
 impl Shadow {
@@ -251,5 +288,8 @@ unsafe fn sh_realloc(ptr: *mut u8, layout: Layout, new_size: usize) -> *mut u8 {
 
 pub fn with<R>(f: impl FnOnce(&mut Shadow) -> R) -> R {
     let mut s = lock();
-    f(&mut s)
+    let prev = IN_WITH.with(|c| c.replace(true));
+    let r = f(&mut s);
+    IN_WITH.with(|c| c.set(prev));
+    r
 }
